@@ -71,6 +71,27 @@ def contracts(ctx, mon):
     return [RenderContract(ctx)]
 
 
+def combining_probe(ctx, mon, rng):
+    """change points that fall on combining marks, joiners, variation selectors, astral characters: the style of every
+    *character* (code point) is what the object reports for it, wherever a grapheme cluster would begin or end"""
+    L = ctx.L
+    try:
+        with mon.quiet():
+            t = rng.choice(['cafe\u0301 n\u0303o', 'a\u0323\u0308b c', 'x\u200dy\ufe0fz', '\U0001d400b\U0001f600c',
+                            '\u05e9\u05b8\u05dc\u05d5\u05dd', 'e\u0301\u0301e'])
+            v = L.AnsiString(t)
+            for _ in range(rng.randint(1, 3)):
+                a = rng.randrange(len(t))
+                v.apply_formatting(rng.choice(['red', 'bold', 'bg_blue', 'underline', 'italic']), a,
+                                   min(len(t), a + rng.randint(1, 3)), topmost=rng.random() < 0.8)
+            if rng.random() < 0.3:
+                v = L.AnsiStr(v)
+        ctx.sig('combining-probe')
+        probe_value(ctx, mon, v)
+    except Exception:
+        ctx.aborted['combining-probe-raised'] += 1
+
+
 def render_extend_render(ctx, mon, rng):
     """one object: rendered, then extended by `+=` / in-place replace / join with a piece whose setting is a
     well-formed multi-code group (two effects in one setting) or a clear code, then rendered again - whatever a
@@ -155,5 +176,7 @@ def drive(ctx, mon, tier, only_case=None):
         for v in ansi_values(L, ex):
             probe_value(ctx, mon, v)
         render_extend_render(ctx, mon, rng)
+        if rng.random() < 0.3:
+            combining_probe(ctx, mon, rng)
 
     run_cases(ctx, mon, CASES[tier], body, only_case=only_case)
